@@ -340,9 +340,58 @@ func (c *ckksCtx) decode(ct *rlwe.Ciphertext) ([][][2]int64, bool) {
 	return m, cons
 }
 
+// averages: ckks.Evaluator.Average(ct, logBatch) and TraceNew(ct, logBatch) both replace every slot by the mean of the
+// slots that are congruent to it modulo 2^logBatch; the values are multiples of the number of summands so that the mean
+// is an integer. Keys: exactly those advertised for the inner sum, resp. for the trace.
+func (d *driver) averages(c *ckksCtx, name string) {
+	p := c.p
+	for lb := 0; lb <= c.logSlot; lb++ {
+		cnt := int64(c.n >> uint(lb))
+		for _, op := range []string{"Average", "TraceNew"} {
+			if op == "TraceNew" && c.real {
+				continue // the trace depth counts coefficients of the standard ring
+			}
+			v := make([]complex128, c.n)
+			m := [][][2]int64{make([][2]int64, c.n)}
+			for i := range v {
+				re, im := cnt*int64(d.rng.Intn(9)-4), cnt*int64(d.rng.Intn(9)-4)
+				if c.real {
+					im = 0
+				}
+				v[i] = complex(float64(re), float64(im))
+				m[0][i] = [2]int64{re, im}
+			}
+			pt := ckks.NewPlaintext(p, p.MaxLevel())
+			pt.LogDimensions = ring.Dimensions{Rows: 0, Cols: c.logSlot}
+			tr.Must(c.ecd.Encode(v, pt))
+			ct, err := c.enc.EncryptNew(pt)
+			tr.Must(err)
+			var o *rlwe.Ciphertext
+			var e2 error
+			var pan bool
+			var msg string
+			if op == "Average" {
+				if p.PCount() == 0 {
+					continue // hoisted sums need an auxiliary modulus
+				}
+				c.ks.advertise(p.GaloisElementsForInnerSum(1<<uint(lb), int(cnt)))
+				o = ckks.NewCiphertext(p, 1, p.MaxLevel())
+				e2, pan, msg = guarded(func() error { return c.eval.Average(ct, lb, o) })
+			} else {
+				c.ks.advertise(rlwe.GaloisElementsForTrace(p, lb))
+				e2, pan, msg = guarded(func() (e error) { o, e = c.eval.TraceNew(ct, lb); return })
+			}
+			res, cons := c.decode(o)
+			d.emit(ev{"ev": "avg", "scheme": name, "op": op, "lb": lb, "cnt": cnt, "v": m, "out": res, "adv": uniq(c.ks.GetGaloisKeysList()), "req": uniq(c.ks.req),
+				"err": e2 != nil, "panic": pan, "cons": cons, "msg": msg})
+		}
+	}
+}
+
 func (d *driver) ckks(c *ckksCtx, name string) {
 	d.prog++
 	d.fork = 0
+	d.averages(c, name)
 	p := c.p
 	n := int64(c.n)
 	out := func() *rlwe.Ciphertext { return ckks.NewCiphertext(p, 1, p.MaxLevel()) }
